@@ -156,6 +156,22 @@ PROPS["C09"] = dict(
     assumptions=["rand's random_range contract (offsets universally quantified in the theorems)"],
 )
 
+PROPS["C03"] = dict(
+    suites=[dict(name="addr", harness="addr", imports=["Addr"], case_type="bool * list addr_case", check="addr_code", monitor="addr_code",
+                 count_quick=300, count_thorough=10000, nontrivial_bits=3, shrink=False),
+            udp_suite("udp-swarm-keys", 0b00011, monitor="mon_c01", count_quick=240),
+            http_suite("http-swarm-keys", 0b00011, monitor="mon_c07", count_quick=200)],
+    rule="addr: the real CanonicalSocketAddr::new and IpVersion::canonical_from_ip on IPv4, IPv4-mapped, near-mapped (one pattern octet off), "
+         "loopback and random IPv6 addresses with ports {0,1,6881,65535}; the real aquatic_http parse_request (hook H5) behind / not behind a "
+         "reverse proxy with 0..3 extra headers among {X-Forwarded-For (several occurrences), x-forwarded-for, X-Real-IP, Accept, "
+         "X-Forwarded-For2}, values that are comma lists of IPv4 / IPv6 / mapped / malformed / empty texts with blanks and tabs, with "
+         "httparse's own header view and Rust's IpAddr parser passed to the model as tables; swarm suites: udp announces carry random "
+         "in-request ip fields and come from v4, v6 and v4-mapped sources (the key the model expects is computed from the canonical source)",
+    modelled="CanonicalSocketAddr::new, IpVersion::canonical_from_ip, parse_forwarded_header and the peer-address choice of connection.rs (Addr.v)",
+    assumptions=["the source address the kernel reports and str::parse::<IpAddr> are outside the model", "httparse's header extraction is taken as given",
+                 "header-name matching is case-sensitive in the code; the property does not say otherwise"],
+)
+
 LEVELS = {
     "C01": dict(
         text="Refinement theorem (Coq, induction over all finite histories, all offsets, any inline capacity): the sequential model of "
@@ -234,6 +250,14 @@ LEVELS["C09"] = dict(
          "offers age out exactly at their deadline. Tied to the code by comparing every forwarded message of generated histories.",
     design_ref="DESIGN.md §7 C09", technique="Coq proofs over the relay functions + in-Coq correspondence of message lists",
     note="Trusted: Coq kernel, model, harness.")
+
+LEVELS["C03"] = dict(
+    text="Theorems for all addresses, ports, request ip fields, header lists and every IP-text parser: mapped sources become the embedded "
+         "IPv4 address (exactly that octet pattern), canonicalisation is idempotent, the WebTorrent family test agrees with it, the stored "
+         "key is (canonical source, request port) and ignores the request's ip field, dual-stack and plain IPv4 give one key, and behind a "
+         "proxy the last element of the last occurrence of the exactly-named header decides. Tied to the code by unit-level differential runs.",
+    design_ref="DESIGN.md §7 C03", technique="Coq non-interference / canonicalisation laws + in-Coq correspondence",
+    note="Trusted: Coq kernel, model, harness, httparse, std's IpAddr parser (table). Partial: kernel-reported source address.")
 
 NOT_APPLICABLE = [
     dict(property_id=p, reason="check not built yet in this round (work in progress; planned per DESIGN.md §10)")
